@@ -152,6 +152,18 @@ macro_rules! suite {
             let _ = ClientLogin::<$name>::deserialize(b).map(|x| x.clone());
             let _ = ServerLogin::<$name>::deserialize(b).map(|x| x.clone());
             let _ = KeyPair::<$ke>::from_private_key_slice(b).map(|x| x.clone());
+            // ... including the result structs (a cloned start result is what a session table keeps)
+            let _ = ClientRegistration::<$name>::start(rng, b).map(|x| x.clone());
+            let _ = ClientLogin::<$name>::start(rng, b).map(|x| x.clone());
+            if let Some((f, cf, sf, setup)) = $flow(b, b, None, None, None, rng, None) {
+                let _ = (f.clone(), cf.clone(), sf.clone());
+                if let Ok(req) = RegistrationRequest::<$name>::deserialize(b) {
+                    let _ = ServerRegistration::<$name>::start(&setup, req, b).map(|x| x.clone());
+                }
+                if let Ok(req) = CredentialRequest::<$name>::deserialize(b) {
+                    let _ = ServerLogin::<$name>::start(rng, &setup, None, req, b, ServerLoginStartParameters::default()).map(|x| x.clone());
+                }
+            }
         }
         pub fn $remote(b: &[u8], rng: &mut TapeRng) {
             if let Ok(kp) = KeyPair::<$ke, RemoteKey<$ke>>::from_private_key_slice(b) {
